@@ -114,9 +114,12 @@ theorem active_terminal (net : Net) (d : Dep) (p n : Node) (h : state net d n = 
       obtain ⟨j, hj, hk⟩ := bip9_descendant net d p n
       rw [hj]; exact winState_active_stable net d _ _ (by rw [hk]; exact h) j
 
-/-- Failed is never left, except by the always-active height override (by design it forces Active
-    whatever the BIP9 state was; see `failed_overridden_only_by_always_active`). -/
-theorem failed_terminal (net : Net) (d : Dep) (p n : Node) (h : state net d n = .failed)
+/-- Failed is never left below the always-active height. PARTIAL with respect to the clause "Failed
+    is never left": `AlwaysActiveHeight` (btcd's testnet override, part of the deployment
+    definition) by design reports Active from that height on whatever the BIP9 state was, so the
+    unrestricted clause is false (`failed_terminal_full_fails`); what is missing is exactly the
+    blocks at/after a configured always-active height. -/
+theorem failed_terminal_partial (net : Net) (d : Dep) (p n : Node) (h : state net d n = .failed)
     (hnf : forced d (p ++ n) = false) : state net d (p ++ n) = .failed := by
   unfold state at *
   by_cases hf : forced d n = true
@@ -125,18 +128,25 @@ theorem failed_terminal (net : Net) (d : Dep) (p n : Node) (h : state net d n = 
     obtain ⟨j, hj, hk⟩ := bip9_descendant net d p n
     rw [hj]; exact winState_failed_stable net d _ _ (by rw [hk]; exact h) j
 
-/-- without an always-active height (and below 2^32-1 blocks) nothing is ever forced. -/
+/-- without an always-active height (and below 2^32-1 blocks) nothing is ever forced, so for such
+    deployments Failed is terminal outright. -/
 theorem not_forced (d : Dep) (n : Node) (h0 : d.alwaysActive = 0) (hl : n.length < 4294967295) :
     forced d n = false := by
   simp [forced, effAlwaysActive, h0]; omega
 
+theorem failed_terminal_no_override (net : Net) (d : Dep) (p n : Node) (h0 : d.alwaysActive = 0)
+    (hl : (p ++ n).length < 4294967295) (h : state net d n = .failed) :
+    state net d (p ++ n) = .failed :=
+  failed_terminal_partial net d p n h (not_forced d _ h0 hl)
+
 /-- the override exists: a deployment that FAILED on a chain is reported Active from the
-    always-active height on (btcd's testnet override, part of the deployment definition). -/
-theorem failed_overridden_only_by_always_active :
-    ∃ (net : Net) (d : Dep) (p n : Node), state net d n = .failed ∧ state net d (p ++ n) = .active :=
-  ⟨⟨2, 2⟩, ⟨0, some 10, some 20, 0, 0, 5⟩,
-   [⟨4, 0, 40⟩],
-   [⟨3, 0, 30⟩, ⟨2, 0, 30⟩, ⟨1, 0, 30⟩, ⟨0, 0, 30⟩], by decide, by decide⟩
+    always-active height on. -/
+theorem failed_terminal_full_fails :
+    ¬ ∀ (net : Net) (d : Dep) (p n : Node), state net d n = .failed → state net d (p ++ n) = .failed := by
+  intro h
+  have := h ⟨2, 2⟩ ⟨0, some 10, some 20, 0, 0, 5⟩ [⟨4, 0, 40⟩]
+    [⟨3, 0, 30⟩, ⟨2, 0, 30⟩, ⟨1, 0, 30⟩, ⟨0, 0, 30⟩] (by decide)
+  revert this; decide
 
 /-! ### next block version -/
 
